@@ -609,6 +609,9 @@ def shared_expr(ctx: Ctx) -> None:
     from . import C16 as _c16
     from .common import support
     support(ctx, [_c16.r2, _c16.r3], {"Expr.__add__", "Expr.__mul__"})
+    # the operands of those sums are Term / Literal objects: their own overloads (unary minus, scaling) are part of how a
+    # posted inequality with negative coefficients is spelt (seeded change C07-9: Term.__neg__ dropping the constant)
+    support(ctx, [_c16.r6], {"Term.__neg__", "Term.__mul__", "Term.__rmul__", "Literal.__neg__", "Literal.__mul__", "Literal.__rmul__"})
 
 
 @rule("C07", "R11.integer-arithmetic", "EFFECT",
